@@ -58,7 +58,7 @@ type Aliased struct {
 	X    string         `yaml:"x" aliases:"ex,eks"`
 	Y    int            `yaml:"y" aliases:"why"`
 	Z    string         `yaml:"z"`
-	W    []string       `yaml:"w" aliases:"double-u"`
+	W    []string       `yaml:"w" aliases:"double-u,,dw2"` // an empty entry in the list is not an alias and does not end the list
 	Rest map[string]any `yaml:",inline"`
 }
 
@@ -109,7 +109,7 @@ var families = []family{
 		"any": map[string]any{"q": []any{1}}, "extra": map[string]any{"e": "e"}, "": "empty", "rest": "r"}, true},
 	{"Nested", reflect.TypeOf(Nested{}), map[string]any{"name": "n", "inner": map[string]any{"a": "ia", "n": 3, "zzz": "ignored"}, "pinner": map[string]any{"b": true, "plain": "pp"},
 		"deep": map[string]any{"l": []any{"dl"}, "unk": 1}, "extra": 1, "": "empty"}, true},
-	{"Aliased", reflect.TypeOf(Aliased{}), map[string]any{"x": "x", "ex": "ex", "eks": "eks", "y": 1, "why": 2, "z": "z", "w": []any{"w"}, "double-u": []any{"dw"}, "": "empty", "extra": "e"}, false},
+	{"Aliased", reflect.TypeOf(Aliased{}), map[string]any{"x": "x", "ex": "ex", "eks": "eks", "y": 1, "why": 2, "z": "z", "w": []any{"w"}, "double-u": []any{"dw"}, "dw2": []any{"dw2"}, "": "empty", "extra": "e"}, false},
 	{"NoInline", reflect.TypeOf(NoInline{}), map[string]any{"x": "x", "ex": "ex", "z": "z", "": "empty", "extra": "e"}, false},
 	{"EmbeddedExported", reflect.TypeOf(EmbeddedExported{}), map[string]any{"name": "llama", "count": 3, "label": "drama", "extra": "e", "base": "b"}, true},
 	{"EmbeddedUnexported", reflect.TypeOf(EmbeddedUnexported{}), map[string]any{"name": "llama", "count": 3, "label": "drama", "extra": "e", "base": "b"}, true},
@@ -152,7 +152,11 @@ func plan(t reflect.Type) (fields []fieldPlan, inline []int) {
 		}
 		var al []string
 		if a, ok := f.Tag.Lookup("aliases"); ok && a != "" {
-			al = strings.Split(a, ",")
+			for _, x := range strings.Split(a, ",") {
+				if x != "" {
+					al = append(al, x)
+				}
+			}
 		}
 		fields = append(fields, fieldPlan{f.Index, key, al})
 	}
